@@ -19,7 +19,8 @@ META = {
         'this covers all payload lengths. R4: the composer emits exactly padding bytes of padding and the parser skips exactly '
         'padding_length. R5: the sign-byte decision of compose_ssh_mpint as a truth table over (negative, non-empty, top bit) '
         'must be: 00 prefix iff non-negative and top bit set, ff prefix iff negative and top bit clear (RFC 4251 5); the '
-        'length written counts the prefix. R6: banner grammar pieces in RFC 4253 4.2 order, CR LF terminated, 255 byte limit.'),
+        'length written counts the prefix. R6: banner grammar pieces in RFC 4253 4.2 order, CR LF terminated, 255 byte limit.'
+        ' R5 additionally tabulates the whole mpint pipeline for non-negative values (C11.R6). R7: software version tokens over the ParserText model. R8: the name-list scanner evaluated from its own statements.'),
     'assumptions': ['minimality of the magnitude bytes produced by _compose_mpint for all integers is not decided',
                     'sa/specs/ssh.json transcribed by hand'],
     'trusted_base': ['sa/specs/ssh.json', 'sa.interp/layout/canon/compare/spec'],
